@@ -107,7 +107,9 @@ func checkC16(c *Ctx, e *Env) {
 	ruleC16Mgr(c, m)
 	ruleC16Every(c, m)
 	ruleC16Stateless(c, m)
-	importObligations(c, e, checkC15, "C15", "C16.IRI", "data ids#one-per-content-hash", "anchors, attestations and registrations are kept per data id, and the data id is looked up by IRI: two different content hashes keep separate permanent records only if the encoders give them different IRIs", func(o *Oblig) bool { return o.Rule == "C15.CODEC" || o.Rule == "C15.NARROW" || o.Rule == "C15.LOOKUP" || o.Rule == "C15.IDENT" })
+	importObligations(c, e, checkC15, "C15", "C16.IRI", "data ids#one-per-content-hash", "anchors, attestations and registrations are kept per data id, and the data id is looked up by IRI: two different content hashes keep separate permanent records only if the encoders give them different IRIs", func(o *Oblig) bool {
+		return o.Rule == "C15.CODEC" || o.Rule == "C15.NARROW" || o.Rule == "C15.LOOKUP" || o.Rule == "C15.IDENT"
+	})
 }
 
 // ruleC16Every: every content hash named in a successful Attest / RegisterResolver message is dealt
@@ -647,6 +649,34 @@ func ruleIriProvenance(c *Ctx, m *Model, writer *ssa.Function, rule string) {
 						}
 					}
 					continue
+				}
+				// a field of a local struct value (several results carried in one struct): every store to
+				// that field of that local
+				if u, ok := arg.(*ssa.UnOp); ok {
+					if fa, ok := u.X.(*ssa.FieldAddr); ok {
+						if al, ok := fa.X.(*ssa.Alloc); ok {
+							nSt, okAll := 0, true
+							for _, r := range *al.Referrers() {
+								fa2, ok := r.(*ssa.FieldAddr)
+								if !ok || fa2.Field != fa.Field {
+									continue
+								}
+								for _, r2 := range *fa2.Referrers() {
+									if st, ok := r2.(*ssa.Store); ok && st.Addr == fa2 {
+										nSt++
+										if tm2 := ct.T(st.Val); strings.Contains(tm2, "ToIRI(") {
+											origins = append(origins, funcKey(caller)+": "+tm2)
+										} else if _, isC := st.Val.(*ssa.Const); !isC {
+											okAll = false
+										}
+									}
+								}
+							}
+							if nSt > 0 && okAll {
+								continue
+							}
+						}
+					}
 				}
 				bad = true
 				c.Violate(rule, "DataID.iri#origin:"+funcKey(caller), p.Pos(ci.Pos()), "IRI stored in DataID does not originate from ToIRI(): "+tm, nil)
